@@ -24,6 +24,7 @@ class SigmaDef:
         return z3.substitute(self.body, *subs)
 
 
+SELECTIONS = {}   # name of an enumeration function sel!k of a boolean-mask selection -> (decl, n, mask reader, count term)
 REG = {}          # canonical key -> SigmaDef
 BY_DECL = {}      # decl name -> SigmaDef
 
